@@ -209,7 +209,11 @@ def ray_triangle_id(
     """
     triangles = np.asanyarray(triangles, dtype=np.float64)
     ray_origins = np.asanyarray(ray_origins, dtype=np.float64)
-    ray_directions = np.asanyarray(ray_directions, dtype=np.float64)
+    # the length of a direction vector carries no meaning: work with unit
+    # vectors so that the absolute tolerances below (parallel test of
+    # `planes_lines`, `buffer_dist` of `ray_bounds`, the forward filter)
+    # do not depend on it
+    ray_directions = util.unitize(np.asanyarray(ray_directions, dtype=np.float64))
 
     # if we didn't get passed an r-tree for the bounds of each
     # triangle create one here
